@@ -728,6 +728,7 @@ func (w *World) decodePollBody(s *Sess, hdr http.Header, body []byte) ([]Pkt, ma
 			}
 		}
 	}
+	info["rawLen"] = len(raw)
 	ct := hdr.Get("Content-Type")
 	isBin := strings.HasPrefix(ct, "application/octet-stream")
 	info["binBody"] = isBin
@@ -903,6 +904,7 @@ type WSClient struct {
 	refCode   int    // JSON code of an HTTP refusal of the upgrade request
 	refMsg    string // its message
 	closeText string // text of the close frame the server sent
+	respHdr   http.Header
 }
 
 func jsonUnmarshal(b []byte, v any) error { return json.Unmarshal(b, v) }
@@ -989,6 +991,9 @@ func (w *World) dialWSQuery(s *Sess, q string, hdr http.Header, onPkt func(*WSCl
 		return c
 	}
 	c.conn = conn
+	if resp != nil {
+		c.respHdr = resp.Header
+	}
 	w.rec.Log("cli.ws.open", "cid", id, "sid", s.Sid)
 	go c.readLoop()
 	return c
